@@ -85,7 +85,9 @@ Inductive pop :=
 | PForwardDirect                                               (* someone who is not the distributor calls ForwardFees *)
 | PCollect (ok : bool) (ts : list (Z * Z))                     (* anyone calls CollectFees *)
 | PAggregate (assets : list (Z * swap))                        (* anyone calls AggregateFees {Factory ..} *)
-| PConfig (admin : bool) (active : option bool) (rate : option Z) (dao : option bool).   (* UpdateConfig *)
+| PConfig (admin : bool) (active : option bool) (rate : option Z) (dao : option bool)    (* UpdateConfig *)
+| PStray (x : Z).                                               (* anybody sends x of the distribution asset straight to the
+                                                                   distributor (Distributor.DStray): no contract code runs *)
 
 Definition pstep (c : dcfg) (now : Z) (s : pstate) (o : pop) : outcome pstate :=
   match o with
@@ -103,6 +105,8 @@ Definition pstep (c : dcfg) (now : Z) (s : pstate) (o : pop) : outcome pstate :=
               (match rate with Some r => r | None => p_rate s end)
               (match dao with Some d => d | None => p_dao_set s end)
               (p_history s) (p_dist s))
+  | PStray x => do r <- dstep c now (p_dist s) (DStray x);
+                Ok (mkP (p_bal s) (p_dao s) (p_active s) (p_rate s) (p_dao_set s) (p_history s) (fst r))
   end.
 
 Definition pevent := (Z * pop)%type.
